@@ -67,6 +67,9 @@ CLAIMED = {
  'C17': ('proptest-generated blame streams from a model history x palettes x blame/separator formats; per-row code/number/attribution oracle; colour invariants over the row sequence',
          'Exploration: every blame line must give one row with the code unchanged, the line number as the separator format dictates and the attribution (commit, author, formatted time) shown or blanked with equal width on repeats; rows of equal consecutive attribution share a colour, differing neighbours never do, and a commit keeps its colour when it reappears unless the line above has it.',
          'Trusted: terminal model, tag attribution; fixed timestamp output format; git-coloured blame lines not generated.', '3/C17'),
+ 'C11': ('proptest-generated diffs with sentinel lines fed one line per request through a recording reader/writer pair (every prefix judged); lag and prefix oracles; the same probes on the real binary over pipes',
+         'Exploration over inputs and every prefix of their lines: at each point where delta asks for the next line, every hunk line before the open run of removed/added lines must already be written, at most N+1 lines may be held back, the section header must be out, and what is written must be a prefix of the output for that input prefix alone and of the final output; a sample of streams is fed to the real binary line by line over pipes and judged by the same rule once the process blocks in read(0).',
+         'Trusted: sentinel visibility = line written; quiescence of the binary read from /proc/<pid>/syscall, the stdin pipe being empty and the context-switch counter; --paging=never for the pipe probes; merge-conflict regions not generated.', '3/C11'),
 }
 hook_commits = subprocess.check_output(['git','-C','/repo','log','--format=%H','--grep','^verif hook:'],text=True).split()
 checks = []
